@@ -913,3 +913,78 @@ M("c06_bump_box_drop_forgets_pointee", ["C06"], ["C06.R4"], [
     fn drop(&mut self) {
         let _ = &self.ptr;
         if false { unsafe { self.ptr.drop_in_place() } }""")])
+
+# ---------------------------------------------------------------- C08
+M("c08_bump_vec_swap_remove_delegates_to_remove", ["C08"], ["C08.R1"], [
+    ("src/bump_vec.rs", """    pub fn swap_remove(&mut self, index: usize) -> T {
+        unsafe { self.fixed.cook_mut() }.swap_remove(index)""", """    pub fn swap_remove(&mut self, index: usize) -> T {
+        unsafe { self.fixed.cook_mut() }.remove(index)""")])
+M("c08_rev_remove_shift_off_by_one", ["C08"], ["C08.R3"], [
+    ("src/mut_bump_vec_rev.rs", """            if index != 0 {
+                start.copy_to(start.add(1), index);
+            }""", """            if index != 0 {
+                start.copy_to(start.add(1), index - 1);
+            }""")])
+M("c08_remove_bounds_gt", ["C08"], ["C08.R2"], [
+    ("src/bump_box.rs", """        if index >= self.len() {
+            assert_failed(index, self.len());
+        }
+
+        unsafe {
+            let start = self.as_mut_ptr();
+            let value_ptr = start.add(index);
+
+            // copy it out, unsafely having a copy of the value on""", """        if index > self.len() {
+            assert_failed(index, self.len());
+        }
+
+        unsafe {
+            let start = self.as_mut_ptr();
+            let value_ptr = start.add(index);
+
+            // copy it out, unsafely having a copy of the value on""")])
+M("c08_swap_remove_copy_before_dec", ["C08"], ["C08.R3"], [
+    ("src/bump_box.rs", """            let value = value_ptr.read();
+            self.dec_len(1);
+
+            start.add(self.len()).copy_to(value_ptr, 1);
+            value""", """            let value = value_ptr.read();
+            start.add(self.len()).copy_to(value_ptr, 1);
+            self.dec_len(1);
+            value""")])
+M("c08_insert_shifts_one_too_few", ["C08"], ["C08.R3"], [
+    ("src/bump_vec.rs", """            if index != self.len() {
+                let len = self.len() - index;
+                ptr::copy(pos, pos.add(1), len);
+            }
+
+            pos.write(element);
+            self.inc_len(1);
+            Ok(&mut *pos)""", """            if index != self.len() {
+                let len = self.len() - index - 1;
+                ptr::copy(pos, pos.add(1), len);
+            }
+
+            pos.write(element);
+            self.inc_len(1);
+            Ok(&mut *pos)""")])
+M("c08_reserve_grows_when_equal", ["C08"], ["C08.R4"], [
+    ("src/bump_vec.rs", """    pub(crate) fn generic_reserve<E: ErrorBehavior>(&mut self, additional: usize) -> Result<(), E> {
+        if additional > (self.capacity() - self.len()) {""", """    pub(crate) fn generic_reserve<E: ErrorBehavior>(&mut self, additional: usize) -> Result<(), E> {
+        if additional >= (self.capacity() - self.len()) {""")])
+M("c08_rev_insert_writes_wrong_slot", ["C08"], ["C08.R3"], [
+    ("src/mut_bump_vec_rev.rs", """                ptr::copy(start, start_sub, index);
+                self.len += 1;
+                start_sub.add(index)""", """                ptr::copy(start, start_sub, index);
+                self.len += 1;
+                start.add(index)""")])
+M("c08_exact_growth_doubles", ["C08"], ["C08.R4"], [
+    ("src/mut_bump_vec.rs", """        let Some(required_cap) = self.len().checked_add(additional) else {
+            return Err(E::capacity_overflow())?;
+        };
+
+        unsafe { self.generic_grow_to(required_cap) }""", """        let Some(required_cap) = self.len().checked_add(additional) else {
+            return Err(E::capacity_overflow())?;
+        };
+
+        unsafe { self.generic_grow_to(required_cap.max(self.capacity() * 2)) }""")])
